@@ -37,7 +37,7 @@ def fam_length(case, ref, unit):
     extra = ()
     if case.root != "CommandResponseStream" and case.b:
         extra = (case.b,)  # a whole further message
-    yield from faults.suffixes(case.b, extra + (bytes(range(256)) + bytes(44),))  # and a long one (300 bytes)
+    yield from faults.suffixes(case.b, extra + (bytes(range(256)) + bytes(44), bytes(range(256)) * 274))  # and long ones (300 and 70 144 bytes)
 
 
 def fam_subst(case, ref, unit):
